@@ -251,7 +251,14 @@ def run(repo, seed, n):
         except Unsupported as e:
             unsupported += 1
             continue
-        if json.loads(json.dumps(got)) != r:
+        try:
+            got_j = json.loads(json.dumps(got))
+        except TypeError:
+            # the engine left part of the result opaque (e.g. a string built by an f-string with a format spec): there is
+            # no concrete value to compare -- counted as unsupported, like an Unsupported construct
+            unsupported += 1
+            continue
+        if got_j != r:
             dis.append({"case": c, "engine": got, "cpython": r})
     return {"runs": len(cases), "engine_unsupported": unsupported, "disagreements": dis[:5], "n_disagreements": len(dis)}
 
@@ -507,6 +514,13 @@ def run_pinned(repo, seed, n):
         except Unsupported:
             unsup += 1
             continue
-        if json.loads(json.dumps(got)) != r:
+        try:
+            got_j = json.loads(json.dumps(got))
+        except TypeError:
+            # the engine left part of the result opaque (e.g. a string built by an f-string with a format spec): there is
+            # no concrete value to compare -- counted as unsupported, like an Unsupported construct
+            unsupported += 1
+            continue
+        if got_j != r:
             dis.append({"case": c, "engine": got, "cpython": r})
     return {"runs": len(cases), "engine_unsupported": unsup, "disagreements": dis[:5], "n_disagreements": len(dis)}
